@@ -269,6 +269,78 @@ def run_task_drain(ck):
                        "schedule": res.get("choices")})
 
 
+def scenario_readers(s, n_readers, n_arrivals, timeout, arrive_at):
+    """H3: several threads blocked in get_next_signal on ONE receiver; arrivals come back to back. Every queued signal
+    must wake a waiting reader: min(n_readers, n_arrivals) readers return a signal at the arrival instant."""
+    import threading as real_threading
+    import dsched
+    from qmi.core.pubsub import QMI_SignalReceiver, QMI_SignalMessage
+    from qmi.core.messaging import QMI_MessageHandlerAddress as Addr
+    from qmi.core.exceptions import QMI_TimeoutException
+    r = QMI_SignalReceiver(8)
+    obs = {"readers": [None] * n_readers}
+    s.obs = obs
+
+    def reader(k):
+        try:
+            sig = r.get_next_signal(timeout)
+            obs["readers"][k] = ("sig", sig.args[0], s.clock)
+        except QMI_TimeoutException:
+            obs["readers"][k] = ("timeout", None, s.clock)
+    ths = [real_threading.Thread(target=reader, args=(k,)) for k in range(n_readers)]
+    for t in ths:
+        t.start()
+    dsched.FAKE_TIME.sleep(arrive_at)
+    for k in range(n_arrivals):
+        r._receive_signal(QMI_SignalMessage(Addr("c", "p"), Addr("c", "$pubsub"), "sig", (k,)))
+    obs["t_arrivals_done"] = s.clock
+    if timeout is None and n_arrivals < n_readers:
+        # release the readers nothing was sent for (outside the judged window)
+        dsched.FAKE_TIME.sleep(1.0)
+        for k in range(n_readers - n_arrivals):
+            r._receive_signal(QMI_SignalMessage(Addr("c", "p"), Addr("c", "$pubsub"), "late", (100 + k,)))
+    for t in ths:
+        t.join()
+    return obs
+
+
+def oracle_readers(n_readers, n_arrivals, timeout, arrive_at, res):
+    if res["status"] == "deadlock":
+        return "a reader stays blocked for ever although a signal is queued for it (%d readers, %d arrivals)" % (n_readers, n_arrivals)
+    if res["status"] != "ok":
+        return "scenario error %s" % str(res.get("trace") or res)[:300]
+    rd = res["obs"]["readers"]
+    got = sorted(x[1] for x in rd if x and x[0] == "sig" and x[1] < 100)
+    want = list(range(min(n_readers, n_arrivals)))
+    if got != want:
+        return "with %d readers waiting and %d signals queued the readers obtained %r (each queued signal must go to one waiting reader)" % (
+            n_readers, n_arrivals, rd)
+    for x in rd:
+        if x and x[0] == "sig" and x[1] < 100 and abs(x[2] - arrive_at) > 1e-9:
+            return "a reader obtained a signal queued at t=%s only at t=%s (not 'as soon as one is queued'): %r" % (arrive_at, x[2], rd)
+    return None
+
+
+def run_readers(ck):
+    import dsched
+    import qmi.core.pubsub, qmi.core.messaging, qmi.core.task  # noqa
+    jobs, meta = [], []
+    for (nr, na) in ((2, 2), (2, 1), (3, 2), (3, 3), (2, 3)):
+        for timeout in (None, 5.0):
+            for i in range(6 if ck.tier == "quick" else 60):
+                sh = (nr, na, timeout, 1.0)
+                jobs.append((scenario_readers, sh, dict(strategy="random" if i % 2 else "pct", seed=ck.seed * 389 + i)))
+                meta.append(sh)
+    for sh, res in zip(meta, dsched.run_forked(jobs, nproc=16, wall_timeout=30)):
+        ck.note_case(("readers", sh, tuple(res.get("choices") or ())), True)
+        ck.count("readers:%s" % res["status"])
+        why = oracle_readers(*sh, res)
+        if why:
+            ck.report("oracle:readers", "C09 (several readers on one receiver) fails on the implementation: " + why,
+                      {"readers": True, "n_readers": sh[0], "n_arrivals": sh[1], "timeout": sh[2], "arrive_at": sh[3],
+                       "schedule": res.get("choices")})
+
+
 def scenario_concurrent_arrivals(s, cap, pol, nthreads, per_thread):
     """H3: several threads deliver to one receiver at the same time (local publisher threads, the socket
     thread, ...); every source line of _receive_signal is a scheduling point."""
@@ -396,6 +468,7 @@ def run(ck):
                       "payloads are integers standing for arbitrary args tuples (the queue never inspects them)"]
     run_blocking(ck)
     run_task_drain(ck)
+    run_readers(ck)
     run_concurrent(ck)
     cases = gen_cases(ck)
     terms, metas = [], []
@@ -466,6 +539,14 @@ def replay(rep):
         sh = (c["n_queued"], c["timeout"], c["stop_before"], c["extra_read"])
         res = dsched.run_forked([(scenario_task_drain, sh, dict(strategy="replay", schedule=list(c.get("schedule") or [])))], nproc=1)[0]
         why = oracle_task_drain(*sh, res)
+        print(res["status"], res.get("obs"), why or "property holds on this schedule")
+        return 1 if why else 0
+    if c.get("readers"):
+        import dsched
+        import qmi.core.pubsub, qmi.core.messaging, qmi.core.task  # noqa
+        sh = (c["n_readers"], c["n_arrivals"], c["timeout"], c["arrive_at"])
+        res = dsched.run_forked([(scenario_readers, sh, dict(strategy="replay", schedule=list(c.get("schedule") or [])))], nproc=1)[0]
+        why = oracle_readers(*sh, res)
         print(res["status"], res.get("obs"), why or "property holds on this schedule")
         return 1 if why else 0
     if c.get("blocking"):
